@@ -4,6 +4,16 @@ claims, techniques and not_applicable reasons stay consistent)."""
 import json, subprocess
 
 CLAIMED = {
+ "C16": dict(
+   technique="ownership/effect dataflow with per-function summaries on go/ssa (argument storage vs fresh storage tags)",
+   text="Proves for every exported helper of the six helper files plus heap.FromSlice/Sort that no write (store, map update/delete, copy, sort, append onto an argument) reaches argument storage (OW1), every returned container and every container stored inside the result is fresh storage (OW2), and the in-place helpers write only their designated argument (OW3). Implies the statement structurally; callbacks and element-level sharing are not decided.",
+   note="Trusted: go/ssa, Go append/copy/re-slice semantics, closed table of external callees, frozen in-place and view tables taken from the property statement.",
+   ref="DESIGN.md section 3 E2, section 4 C16"),
+ "C18": dict(
+   technique="path rules on the go/ssa CFG: longest-path call counting on the acyclic condensation, edge dominance, must-pass-through, induction-variable loop bound",
+   text="Decides call counts and ordering of After, Before, Once, Retry, RetryWithDelay: callback at most once per path, counter decremented exactly once and compared with a constant before/after as the function promises, Once stores and returns the single call result, retry loops bounded by n with exit on first success and a wait on the delay parameter between attempts. Thresholds of After/Before and wall-clock time are not decided.",
+   note="Trusted: go/ssa, time.After/Sleep contracts; accepted loop shapes enumerated in DESIGN.md (PT4).",
+   ref="DESIGN.md section 3 E4, section 4 C18"),
  "C01": dict(
    technique="interprocedural lockset + ownership dataflow on go/ssa (context-inlined abstract interpretation)",
    text="Proves, for every API entry point of the eight lock-guarded container types and every calling context, that each access to guarded storage holds the instance lock in the needed mode, that locks are balanced, never re-acquired and acyclically ordered, and that no reference to guarded storage escapes (rules LK1-LK5). Sufficient for data-race freedom and absence of lock-induced deadlock for every schedule; sequential panics and user-callback re-entrancy are not decided.",
